@@ -888,6 +888,40 @@ def documented_cleanups_level(ctx):
             ctx.violation("clean-up %r: the served object is not a fixed point of re-upload" % what, case)
 
 
+def value_text_level(ctx):
+    """vobject's value reader (`stringToTextValues`, element 0 is what the text behaviours keep) and writer (`backslashEscape`) against
+    RadicaleModel/TextValue.lean, on strings of commas, semicolons, backslashes, escapes, quotes, line ends and ordinary text"""
+    import logging
+    from vobject.base import backslashEscape
+    from vobject.icalendar import stringToTextValues
+    if not ctx.driver:
+        return
+    rng = ctx.rng("textvalue")
+    alph = list("ab,;\\nN\"\r\n :\u00e9=") + ["\\,", "\\;", "\\\\", "\\n", "\\x", "\\N", "\\\""]
+    cases = ["".join(rng.choice(alph) for _ in range(rng.randint(0, 12))) for _ in range(ctx.n(1500, 40000))]
+    cases += ["", "\\", "a\\", ",", ",,", "a,", ",a", "\\,", "\r\n", "\r", "\n\r", "geo:48.137154,11.576124", "data:image/jpeg;base64,AAEC", "M;male", "Johnny,JD"]
+    ans = ctx.driver.ask([{"m": "fold", "op": "textvalue", "s": chars(c)} for c in cases])
+    lg = logging.getLogger()
+    old = lg.level
+    lg.setLevel(logging.CRITICAL)
+    try:
+        for c, a in zip(cases, ans):
+            real_values = stringToTextValues(c)
+            real_escaped = backslashEscape(c)
+            ctx.case("textvalue:%s" % ("list" if len(real_values) > 1 else "escapes" if "\\" in c else "plain"), sample={"value": c, "read": real_values},
+                     key=["textvalue", c], nontrivial=len(real_values) > 1 or "\\" in c)
+            if [unchars(v) for v in a["values"]] != real_values:
+                ctx.disagree("vobject stringToTextValues vs model readValues", {"value": c}, real_values, [unchars(v) for v in a["values"]])
+            if unchars(a["escaped"]) != real_escaped:
+                ctx.disagree("vobject backslashEscape vs model escape", {"value": c}, real_escaped, unchars(a["escaped"]))
+            # oracle on the implementation alone: what is written is read back (line ends as LF)
+            back = stringToTextValues(real_escaped)
+            if back != [c.replace("\r\n", "\n").replace("\r", "\n")]:
+                ctx.violation("a value written by the serialiser is not read back: %r -> %r -> %r" % (c, real_escaped, back), {"value": c})
+    finally:
+        lg.setLevel(old)
+
+
 def witnesses(ctx):
     """the two unsafe shapes, on the running server: served content is not a fixed point"""
     shapes = {"F5": "DESCRIPTION:a" + " " * 150 + "b",
@@ -929,4 +963,5 @@ def run(ctx):
     date_list_quirk_level(ctx)
     request_charset_level(ctx)
     documented_cleanups_level(ctx)
+    value_text_level(ctx)
     witnesses(ctx)
